@@ -38,6 +38,11 @@ def cells(tier, seed):
             for D in Ds:
                 out.append({"fam": fam, "R": R, "D": D, "tier": tier, "group": [fam, R, D],
                             "cost": FAM_COST.get(fam, 1.0)})
+        if tier == "quick" and fam.startswith("measure:"):
+            # one larger dimension for the measure families (non-diagonal precisions of D = 2
+            # are too often special: isotropic, or with an omitted information vector)
+            out.append({"fam": fam, "R": 3, "D": 3, "tier": tier, "group": [fam, 3, 3],
+                        "cost": FAM_COST.get(fam, 1.0)})
     return out
 
 
